@@ -1050,10 +1050,10 @@ fn f4g(index: u64) -> Option<Plan> {
 	Some(p)
 }
 
-/// F4c: every ordered pair of chain lengths 1..4 x 3 key families: two successive issuances of
-/// one certificate (the second over the first), kp_reuse off.
+/// F4c: every ordered pair of chain lengths 1..4 x 3 key families x LF/CRLF line endings of the
+/// served chain: two successive issuances of one certificate (the second over the first), kp_reuse off.
 fn f4c(index: u64) -> Option<Plan> {
-	let g = grid(index, &[4, 4, 3])?;
+	let g = grid(index, &[4, 4, 3, 2])?;
 	let mut rng = Rng::new(0xF4C ^ index);
 	let mut p = simple_plan(&mut rng, 1);
 	p.config.certificates[0].key_type =
@@ -1061,6 +1061,7 @@ fn f4c(index: u64) -> Option<Plan> {
 	p.config.certificates[0].kp_reuse = Some(false);
 	p.cas[0].knobs.chain_len = vec![g[0] as u32 + 1, g[1] as u32 + 1];
 	p.cas[0].knobs.lifetime_s = vec![3600];
+	p.cas[0].knobs.pem_crlf = g[3] == 1;
 	p.ops = vec![Op::Run {
 		attempts: 2,
 		max_virtual_s: 20_000,
